@@ -196,7 +196,7 @@ def expected_transcript(c):
                                             "2,-,-,0,0" if v5plus(c["version"]) else "none"),
            "confirm %s %d %d source=%s caps=1.2.3.4.8.12.13.15.16.17.20.26 general=1045 bitmap=24,%d,%d input=21,%d,4,0,12" % (
                ic, uid, sid, hx(c["name"].encode("utf-8")), c["w"], c["h"], c["layout"]),
-           "sync %s %d %d 1003" % (ic, uid, sid), "control %s %d %d 4 0 0" % (ic, uid, sid), "control %s %d %d 1 0 0" % (ic, uid, sid),
+           "sync %s %d %d 1002" % (ic, uid, sid), "control %s %d %d 4 0 0" % (ic, uid, sid), "control %s %d %d 1 0 0" % (ic, uid, sid),
            "fontlist %s %d %d" % (ic, uid, sid)]
     for e in c["events"]:
         f = e.split(":")
